@@ -115,6 +115,14 @@ def _single_cond(op, av, c, flags, is_str):
 SINGLE = (sc.LITERAL, sc.NOT_LITERAL, sc.ANY, sc.IN)
 
 
+class BacktrackBudget(Exception):
+    """the mirrored backtracking search made more steps than the budget the caller set (STEP_BUDGET)"""
+
+
+STEPS = [0]            # calls of Matcher.m since the caller last reset it: one per regex node attempted, the unit in
+STEP_BUDGET = [None]   # which sre's backtracking search grows as well
+
+
 class Matcher:
     def __init__(self, pattern, flags):
         self.flags = flags
@@ -127,6 +135,9 @@ class Matcher:
         self.flags = flags
 
     def m(self, items, el, pos, groups, k, endpos=None):
+        STEPS[0] += 1
+        if STEP_BUDGET[0] is not None and STEPS[0] > STEP_BUDGET[0]:
+            raise BacktrackBudget(STEPS[0])
         if not items:
             return k(pos, groups)
         (op, av), rest = items[0], items[1:]
